@@ -53,6 +53,10 @@ def variant(kind, rng, mode, axi):
         b0.update(A_0=0.0, A_1=0.0, A_2=0.0)
         if mode == "bc":
             b0.update(A_0=1e-3, A_1=2e-3, A_2=-1e-3)
+            # the prescription A0 + A1 r + A2 theta of [Coordinates] = polar (file format only; r in the declared unit) in half of them
+            if (len(p.nodes) + len(p.segs)) % 2 == 0:        # (decided by the drawing, so that the random stream of the other variants is unchanged)
+                p.coords = "polar"
+                b0.update(A_2=1e-5)
         elif mode == "src":
             p.blockprops[p.labels[0]["block"]]["J_re"] = 1.5
         elif mode == "mag":
